@@ -24,6 +24,11 @@ def run(case):
                'dbsecret': 'S3CR3T-E', 'secretkey': 'S3CR3T-F', 'api_secrets': 'S3CR3T-G', 'client-secret': 'S3CR3T-H',
                'xsecretx': 'S3CR3T-I', 'secret': 'S3CR3T-J'}
     plain = {'visible_name': 'VISIBLE-VALUE', 'number': 42}
+    class Exploding(object):
+        # repr() raises and the message quotes the value: a secret-named resource must never be repr()'d
+        def __repr__(self):
+            raise ValueError('cannot show S3CR3T-X-inside-the-error-message')
+    secrets['exploding_secret'] = Exploding()
     res = dict(secrets)
     res.update(plain)
     mw = SignedCookieMiddleware(secret_key='K3Y-MATERIAL')
@@ -48,9 +53,13 @@ def run(case):
                 continue
             body = r.get_data(as_text=True)
             for k, v in secrets.items():
+                if k == 'exploding_secret':
+                    continue
                 marker = repr(v) if not isinstance(v, (str, bytes)) else (v if isinstance(v, str) else v.decode())
                 if 'secret' in k and ('S3CR3T-' + marker.split('S3CR3T-')[-1][:1]) in body:
                     problems.append('%s: value of resource %r is disclosed' % (path, k))
+            if 'S3CR3T-X' in body:
+                problems.append('%s: the text of a secret resource reached the page through an error message' % path)
             if 'K3Y-MATERIAL' in body:
                 problems.append('%s: cookie signing key disclosed' % path)
             if prefix:
@@ -59,6 +68,20 @@ def run(case):
                 problems.append('%s: non-secret resource not listed' % path)
             if '[REDACTED]' not in body:
                 problems.append('%s: no redaction marker' % path)
+    # one section failing (a host middleware whose repr raises) must not take the other sections with it
+    class BadRepr(Middleware):
+        def __repr__(self):
+            raise AttributeError('misspelled attribute in __repr__')
+
+        def request(self, next):
+            return next()
+    app2 = Application([('/', lambda: Response('x')), ('/_meta/', MetaApplication())], resources=res, middlewares=[BadRepr()])
+    r = Client(app2, Response).get('/_meta/')
+    body = r.get_data(as_text=True)
+    if r.status_code != 200:
+        problems.append('/_meta/ with a failing middleware section: status %s' % r.status_code)
+    elif '[REDACTED]' not in body or 'VISIBLE-VALUE' not in body:
+        problems.append('/_meta/ with a failing middleware section: the resources section vanished from the page')
     return {'fails': bool(problems), 'why': '; '.join(problems[:5])}
 
 
